@@ -44,6 +44,13 @@ Theorem C08_unbound_fails : ∀ s s' o ts r cs, reach s → sstep s o ts = (s', 
 Proof. exact cl_unbound_fails. Qed.
 Print Assumptions C08_unbound_fails.
 
+(* the reserved no-fid value cannot be bound: attach onto it and walk onto it fail *)
+Theorem C08_nofid_target : ∀ s s' o ts r cs, reach s → sstep s o ts = (s', r, cs) →
+  ((∃ a, o = OAttach NOFID a) ∨ (∃ f names, o = OWalk f NOFID names ∧ f ≠ NOFID)) →
+  (∃ e, r = RErr e) ∧ abs s' = abs s.
+Proof. exact cl_nofid_target. Qed.
+Print Assumptions C08_nofid_target.
+
 (* attach / walk onto a bound fid: duplicate fid, nothing changes *)
 Theorem C08_attach_dup : ∀ s s' o ts r cs, reach s → sstep s o ts = (s', r, cs) →
   ∀ f, o = OAttach f NOFID → is_Some (sp_lookup (abs s) f) → r = RErr EDup ∧ abs s' = abs s.
